@@ -18,7 +18,7 @@ ASSUMPTIONS = [
     'histories are interpreted from generated op lists with indices taken modulo the current slot counts (construction, not rejection)',
 ]
 
-OPS = ['create', 'create', 'managed_same', 'managed_mixed', 'pop_back', 'dup', 'pickle', 'unpickle', 'to_helper', 'transit_to_helper', 'helper_drop', 'helper_back', 'helper_pickle_back', 'store', 'store', 'unstore', 'delete', 'delete', 'managed_return', 'process_arg', 'helper_exit']
+OPS = ['create', 'create', 'managed_same', 'managed_mixed', 'pop_back', 'dup', 'pickle', 'unpickle', 'to_helper', 'transit_to_helper', 'helper_drop', 'helper_back', 'helper_pickle_back', 'store', 'store', 'unstore', 'delete', 'delete', 'managed_return', 'process_arg', 'process_arg_moved', 'helper_exit']
 KINDS = ['list', 'dict', 'Value', 'MemoryBlock', 'VCounter']
 
 
@@ -83,14 +83,39 @@ def cheap_call(proxy, kind):
     return None
 
 
+def _teardown_hard():
+    """after a suspected hang: the server may be wedged, so closing it politely may block too"""
+    import threading
+
+    from vf.realproc import reap_children
+
+    t = threading.Thread(target=_teardown, daemon=True)
+    t.start()
+    t.join(10)
+    reap_children()
+
+
 def run_case(spec):
     from vf.realproc import run_with_watchdog
 
-    try:
-        return run_with_watchdog(lambda: _run(spec), budget_s=90, what='manager history', hang_retries=0, hang_is_violation=False)
-    except BaseException:
-        _teardown()  # later cases must start from a fresh, empty server
-        raise
+    hangs = 0
+    for attempt in range(3):
+        try:
+            res = run_with_watchdog(lambda: _run(spec), budget_s=20 * 2**attempt, what='manager history', hang_retries=0, hang_is_violation=False)
+        except Inconclusive as e:
+            if 'hung' not in str(e):
+                _teardown()
+                raise
+            hangs += 1
+            _teardown_hard()  # the next attempt starts a fresh server and helper
+            continue
+        except BaseException:
+            _teardown()  # later cases must start from a fresh, empty server
+            raise
+        if hangs:
+            raise Inconclusive(f'manager history: hung {hangs}x then completed')
+        return res
+    raise Violation('hang', f"the history did not finish within 20 s, 40 s, 80 s, each time on a fresh server (a step blocked forever): {spec['ops']}", signature=['hang'])
 
 
 def _run(spec):
@@ -319,16 +344,27 @@ def _run(spec):
             else:
                 trace[-1].append('skipped')
                 continue
-        elif op == 'process_arg' and main:
-            p, oid, kind = main[a % len(main)]
+        elif op in ('process_arg', 'process_arg_moved') and main:
+            i = a % len(main)
+            p, oid, kind = main[i]
             pa, pb = r.mmp.MP_SPAWN_CTX.Pipe()
             proc = r.mmp.Process(target=ml.arg_holder, args=(p, pb))
             proc.start()
-            proc.join()
-            if pa.poll(5):
-                st_, payload = pa.recv()
-                if st_ != 'ok':
-                    raise Violation('proxy_unusable', f'proxy passed as a Process argument failed in the child: {payload}; history {trace}', signature=['proxy_unusable', 'process_arg'])
+            if op == 'process_arg_moved':
+                # the parent hands its handle over: it drops its own proxy right after start(), long before the child has rebuilt
+                # its copy; meanwhile the serialized argument is the reference that keeps the object alive
+                main.pop(i)
+                p = None
+                gc.collect()
+            try:
+                proc.join()
+                st_, payload = pa.recv() if pa.poll(5) else ('err', 'the child sent no report')
+            except BaseException as e:
+                st_, payload = 'err', f'{type(e).__name__}: {e}'
+            if st_ != 'ok':
+                raise Violation('proxy_unusable', f'proxy passed as a Process argument ({op}) failed in the child: {str(payload)[:300]}; history {trace}', signature=['proxy_unusable', op])
+            if op == 'process_arg_moved':
+                model.dec(oid)
             del proc
             cross += 1
         elif op == 'helper_exit':
@@ -378,7 +414,7 @@ def _run(spec):
 
 RULE = (
     'histories of 5-40 operations over {create list/dict/Value/MemoryBlock/registered class, duplicate by pickle round trip, pickle into transit, unpickle once (here or in the helper process), send to / receive from the helper process, '
-    'store in / remove from a hosted list or dict, obtain via managed_list() from a hosted method, pass as Process argument, delete, helper exits (after dropping / abruptly)} against one ServerProcess and one helper client process. '
+    'store in / remove from a hosted list or dict, obtain via managed_list() from a hosted method, pass as Process argument (keeping, or dropping the own proxy of the parent right after start), delete, helper exits (after dropping / abruptly)} against one ServerProcess and one helper client process. '
     'Invariant after every operation (eventually, <= 2 s, after quiescing each connection): debug_info lists exactly the objects with model refs > 0 with those counts; every live proxy is usable; /dev/shm/<name> exists iff the block is referenced; '
     'after dropping everything the server is empty. Non-trivial: >=1 cross-process transfer or nesting and >=1 object reaching count 0; distinct by history.'
 )
